@@ -609,6 +609,21 @@ func main() {
 		emitDec(next("a"), "dagjson", "basic", defJ, []byte(deep))
 		emitDec(next("a"), "dagcbor", "basic", defC, []byte(strings.Repeat("\x81", 10+i*200)+"\x00"))
 	}
+	// --- the look-ahead for {"/": ...}: every way the link / bytes shape can stop matching, at every number of
+	// buffered tokens (the replay of up to six tokens must never panic), each also truncated at every position
+	for _, doc := range []string{
+		`{"/":1}`, `{"/":null,"x":1}`, `{"/":"bafkqaaa"}`, `{"/":"bafkqaaa","x":1}`, `{"/":"nocid"}`, `{"/":"nocid","x":1}`,
+		`{"/":[]}`, `{"/":{}}`, `{"/":{},"x":1}`, `{"/":{"x":1}}`, `{"/":{"bytes":1}}`, `{"/":{"bytes":"aGVsbG8"}}`,
+		`{"/":{"bytes":"aGVsbG8","y":2}}`, `{"/":{"bytes":"aGVsbG8"},"x":1}`, `{"/":{"bytes":"aGVsbG8"},"x":{"/":{"bytes":"AA"},"y":[1]}}`,
+		`{"/":{"bytes":"!!"}}`, `{"/":{"bytes":"!!"},"x":1}`, `[{"/":{"bytes":"aGVsbG8"},"x":1},{"/":{"bytes":"aGVsbG8"}}]`,
+	} {
+		for _, o := range []jsonOpts{{links: true, bytes: true}, {links: true, bytes: false}, {links: false, bytes: true}, {links: false, bytes: false}} {
+			emitDec(next("la"), "dagjson", "basic", o.String(), []byte(doc))
+		}
+		for cut := 1; cut < len(doc); cut++ {
+			emitDec(next("la"), "dagjson", "basic", defJ, []byte(doc[:cut]))
+		}
+	}
 	// --- depth accounting must not be influenced by scalars seen earlier in the document: k links /
 	// bytes / strings / empty containers first, then a part nested exactly at and just beyond the limit
 	for _, maxd := range []int64{1, 2, 3, 5} {
